@@ -182,6 +182,130 @@ TIES = [
     ('source_get_range', 'mtbl/source.c', 'mtbl_source_get_range', ALL, ['C02']),
     ('iter_seek', 'mtbl/iter.c', 'mtbl_iter_seek', ALL, ['C03', 'C05']),
     ('iter_next', 'mtbl/iter.c', 'mtbl_iter_next', ALL, ['C03', 'C05']),
+    # every remaining function of the library sources (session 3, late): no statement of libmtbl changes without a tie breaking
+    ('blk_num_restarts', 'mtbl/block.c', 'num_restarts', ALL, ['C03', 'C11']),
+    ('blk_block_iter_init', 'mtbl/block.c', 'block_iter_init', ALL, ['C03', 'C11']),
+    ('blk_next_entry_offset', 'mtbl/block.c', 'next_entry_offset', ALL, ['C03', 'C11']),
+    ('blk_seek_to_restart_point', 'mtbl/block.c', 'seek_to_restart_point', ALL, ['C03', 'C11']),
+    ('blk_block_iter_valid', 'mtbl/block.c', 'block_iter_valid', ALL, ['C03', 'C11']),
+    ('blk_block_iter_seek_to_first', 'mtbl/block.c', 'block_iter_seek_to_first', ALL, ['C03', 'C11']),
+    ('blk_compare_restart_point', 'mtbl/block.c', 'compare_restart_point', ALL, ['C03', 'C11']),
+    ('blk_block_iter_next', 'mtbl/block.c', 'block_iter_next', ALL, ['C03', 'C11']),
+    ('blk_block_iter_get', 'mtbl/block.c', 'block_iter_get', ALL, ['C03', 'C11']),
+    ('blk_block_destroy', 'mtbl/block.c', 'block_destroy', ALL, ['C03', 'C18']),
+    ('blk_block_iter_destroy', 'mtbl/block.c', 'block_iter_destroy', ALL, ['C03', 'C18']),
+    ('bb_block_builder_init', 'mtbl/block_builder.c', 'block_builder_init', ALL, ['C09']),
+    ('bb_block_builder_destroy', 'mtbl/block_builder.c', 'block_builder_destroy', ALL, ['C09']),
+    ('bb_block_builder_reset', 'mtbl/block_builder.c', 'block_builder_reset', ALL, ['C09']),
+    ('bb_block_builder_empty', 'mtbl/block_builder.c', 'block_builder_empty', ALL, ['C09']),
+    ('comp_mtbl_compression_type_to_str', 'mtbl/compression.c', 'mtbl_compression_type_to_str', ALL, ['C15']),
+    ('comp_mtbl_compression_type_from_str', 'mtbl/compression.c', 'mtbl_compression_type_from_str', ALL, ['C15']),
+    ('fs_fileset_iter_seek', 'mtbl/fileset.c', 'fileset_iter_seek', ALL, ['C07']),
+    ('fs_fileset_iter_next', 'mtbl/fileset.c', 'fileset_iter_next', ALL, ['C07']),
+    ('fs_fileset_source_iter', 'mtbl/fileset.c', 'fileset_source_iter', ALL, ['C07']),
+    ('fs_fileset_source_get', 'mtbl/fileset.c', 'fileset_source_get', ALL, ['C07']),
+    ('fs_fileset_source_get_prefix', 'mtbl/fileset.c', 'fileset_source_get_prefix', ALL, ['C07']),
+    ('fs_fileset_source_get_range', 'mtbl/fileset.c', 'fileset_source_get_range', ALL, ['C07']),
+    ('fs_mtbl_fileset_options_init', 'mtbl/fileset.c', 'mtbl_fileset_options_init', ALL, ['C07']),
+    ('fs_mtbl_fileset_options_set_merge_func', 'mtbl/fileset.c', 'mtbl_fileset_options_set_merge_func', ALL, ['C07']),
+    ('fs_mtbl_fileset_options_set_dupsort_func', 'mtbl/fileset.c', 'mtbl_fileset_options_set_dupsort_func', ALL, ['C07']),
+    ('fs_mtbl_fileset_options_set_filename_filter_func', 'mtbl/fileset.c', 'mtbl_fileset_options_set_filename_filter_func', ALL, ['C07']),
+    ('fs_mtbl_fileset_options_set_reader_filter_func', 'mtbl/fileset.c', 'mtbl_fileset_options_set_reader_filter_func', ALL, ['C07']),
+    ('fs_mtbl_fileset_options_set_reload_interval', 'mtbl/fileset.c', 'mtbl_fileset_options_set_reload_interval', ALL, ['C07']),
+    ('fs_mtbl_fileset_source', 'mtbl/fileset.c', 'mtbl_fileset_source', ALL, ['C07']),
+    ('fs_mtbl_fileset_partition', 'mtbl/fileset.c', 'mtbl_fileset_partition', ALL, ['C07']),
+    ('fs_fs_load', 'mtbl/fileset.c', 'fs_load', ALL, ['C07', 'C18']),
+    ('fs_fs_unload', 'mtbl/fileset.c', 'fs_unload', ALL, ['C07', 'C18']),
+    ('fs_mtbl_fileset_set_options', 'mtbl/fileset.c', 'mtbl_fileset_set_options', ALL, ['C07', 'C18']),
+    ('fs_mtbl_fileset_options_destroy', 'mtbl/fileset.c', 'mtbl_fileset_options_destroy', ALL, ['C07', 'C18']),
+    ('fixed_mtbl_fixed_encode32', 'mtbl/fixed.c', 'mtbl_fixed_encode32', ALL, ['C16']),
+    ('fixed_mtbl_fixed_encode64', 'mtbl/fixed.c', 'mtbl_fixed_encode64', ALL, ['C16']),
+    ('fixed_mtbl_fixed_decode32', 'mtbl/fixed.c', 'mtbl_fixed_decode32', ALL, ['C16']),
+    ('fixed_mtbl_fixed_decode64', 'mtbl/fixed.c', 'mtbl_fixed_decode64', ALL, ['C16']),
+    ('iter_mtbl_iter_init', 'mtbl/iter.c', 'mtbl_iter_init', ALL, ['C03']),
+    ('mg_mtbl_merger_options_init', 'mtbl/merger.c', 'mtbl_merger_options_init', ALL, ['C04', 'C05']),
+    ('mg_mtbl_merger_options_destroy', 'mtbl/merger.c', 'mtbl_merger_options_destroy', ALL, ['C04', 'C05']),
+    ('mg_mtbl_merger_options_set_merge_func', 'mtbl/merger.c', 'mtbl_merger_options_set_merge_func', ALL, ['C04', 'C05']),
+    ('mg_mtbl_merger_options_set_dupsort_func', 'mtbl/merger.c', 'mtbl_merger_options_set_dupsort_func', ALL, ['C04', 'C05']),
+    ('mg_mtbl_merger_init', 'mtbl/merger.c', 'mtbl_merger_init', ALL, ['C04', 'C05']),
+    ('mg_mtbl_merger_source', 'mtbl/merger.c', 'mtbl_merger_source', ALL, ['C04', 'C05']),
+    ('mg_mtbl_merger_add_source', 'mtbl/merger.c', 'mtbl_merger_add_source', ALL, ['C04', 'C05']),
+    ('mg_merger_iter_add_entry', 'mtbl/merger.c', 'merger_iter_add_entry', ALL, ['C04', 'C05']),
+    ('mg_merger_iter', 'mtbl/merger.c', 'merger_iter', ALL, ['C04', 'C05']),
+    ('mg_merger_get', 'mtbl/merger.c', 'merger_get', ALL, ['C04', 'C05']),
+    ('mg_merger_get_range', 'mtbl/merger.c', 'merger_get_range', ALL, ['C04', 'C05']),
+    ('mg_merger_get_prefix', 'mtbl/merger.c', 'merger_get_prefix', ALL, ['C04', 'C05']),
+    ('meta_metadata_write', 'mtbl/metadata.c', 'metadata_write', ALL, ['C10']),
+    ('meta_metadata_read', 'mtbl/metadata.c', 'metadata_read', ALL, ['C10']),
+    ('meta_mtbl_metadata_file_version', 'mtbl/metadata.c', 'mtbl_metadata_file_version', ALL, ['C10']),
+    ('meta_mtbl_metadata_index_block_offset', 'mtbl/metadata.c', 'mtbl_metadata_index_block_offset', ALL, ['C10']),
+    ('meta_mtbl_metadata_data_block_size', 'mtbl/metadata.c', 'mtbl_metadata_data_block_size', ALL, ['C10']),
+    ('meta_mtbl_metadata_compression_algorithm', 'mtbl/metadata.c', 'mtbl_metadata_compression_algorithm', ALL, ['C10']),
+    ('meta_mtbl_metadata_count_entries', 'mtbl/metadata.c', 'mtbl_metadata_count_entries', ALL, ['C10']),
+    ('meta_mtbl_metadata_count_data_blocks', 'mtbl/metadata.c', 'mtbl_metadata_count_data_blocks', ALL, ['C10']),
+    ('meta_mtbl_metadata_bytes_data_blocks', 'mtbl/metadata.c', 'mtbl_metadata_bytes_data_blocks', ALL, ['C10']),
+    ('meta_mtbl_metadata_bytes_index_block', 'mtbl/metadata.c', 'mtbl_metadata_bytes_index_block', ALL, ['C10']),
+    ('meta_mtbl_metadata_bytes_keys', 'mtbl/metadata.c', 'mtbl_metadata_bytes_keys', ALL, ['C10']),
+    ('meta_mtbl_metadata_bytes_values', 'mtbl/metadata.c', 'mtbl_metadata_bytes_values', ALL, ['C10']),
+    ('rdr_mtbl_reader_options_init', 'mtbl/reader.c', 'mtbl_reader_options_init', ALL, ['C02', 'C03']),
+    ('rdr_mtbl_reader_options_destroy', 'mtbl/reader.c', 'mtbl_reader_options_destroy', ALL, ['C02', 'C03']),
+    ('rdr_mtbl_reader_options_set_madvise_random', 'mtbl/reader.c', 'mtbl_reader_options_set_madvise_random', ALL, ['C02', 'C03']),
+    ('rdr_mtbl_reader_options_set_verify_checksums', 'mtbl/reader.c', 'mtbl_reader_options_set_verify_checksums', ALL, ['C02', 'C03']),
+    ('rdr_mtbl_reader_metadata', 'mtbl/reader.c', 'mtbl_reader_metadata', ALL, ['C02', 'C03']),
+    ('rdr_mtbl_reader_source', 'mtbl/reader.c', 'mtbl_reader_source', ALL, ['C02', 'C03']),
+    ('rdr_get_block_at_index', 'mtbl/reader.c', 'get_block_at_index', ALL, ['C02', 'C03']),
+    ('rdr_reader_iter', 'mtbl/reader.c', 'reader_iter', ALL, ['C02', 'C03']),
+    ('rdr_reader_get', 'mtbl/reader.c', 'reader_get', ALL, ['C02', 'C03']),
+    ('rdr_reader_get_prefix', 'mtbl/reader.c', 'reader_get_prefix', ALL, ['C02', 'C03']),
+    ('rdr_reader_get_range', 'mtbl/reader.c', 'reader_get_range', ALL, ['C02', 'C03']),
+    ('srt_mtbl_sorter_options_init', 'mtbl/sorter.c', 'mtbl_sorter_options_init', ALL, ['C06']),
+    ('srt_mtbl_sorter_options_destroy', 'mtbl/sorter.c', 'mtbl_sorter_options_destroy', ALL, ['C06']),
+    ('srt_mtbl_sorter_options_set_merge_func', 'mtbl/sorter.c', 'mtbl_sorter_options_set_merge_func', ALL, ['C06']),
+    ('srt_mtbl_sorter_options_set_temp_dir', 'mtbl/sorter.c', 'mtbl_sorter_options_set_temp_dir', ALL, ['C06']),
+    ('srt_mtbl_sorter_options_set_max_memory', 'mtbl/sorter.c', 'mtbl_sorter_options_set_max_memory', ALL, ['C06']),
+    ('srt_mtbl_sorter_options_set_threadpool', 'mtbl/sorter.c', 'mtbl_sorter_options_set_threadpool', ALL, ['C06']),
+    ('srt_mtbl_sorter_get_entry_batch', 'mtbl/sorter.c', '_mtbl_sorter_get_entry_batch', ALL, ['C06']),
+    ('srt_sorter_iter_seek', 'mtbl/sorter.c', 'sorter_iter_seek', ALL, ['C06']),
+    ('srt_sorter_iter_next', 'mtbl/sorter.c', 'sorter_iter_next', ALL, ['C06']),
+    ('src_mtbl_source_destroy', 'mtbl/source.c', 'mtbl_source_destroy', ALL, ['C02']),
+    ('src_mtbl_source_iter', 'mtbl/source.c', 'mtbl_source_iter', ALL, ['C02']),
+    ('tp_threadpool_init', 'mtbl/threadpool.c', 'threadpool_init', ALL, ['C13', 'C14']),
+    ('tp_resultq_init', 'mtbl/threadpool.c', 'resultq_init', ALL, ['C13', 'C14']),
+    ('vi_mtbl_varint_length', 'mtbl/varint.c', 'mtbl_varint_length', ALL, ['C16']),
+    ('vi_mtbl_varint_length_packed', 'mtbl/varint.c', 'mtbl_varint_length_packed', ALL, ['C16']),
+    ('vi_mtbl_varint_encode32', 'mtbl/varint.c', 'mtbl_varint_encode32', ALL, ['C16']),
+    ('vi_mtbl_varint_encode64', 'mtbl/varint.c', 'mtbl_varint_encode64', ALL, ['C16']),
+    ('vi_varint_decode', 'mtbl/varint.c', '_varint_decode', ALL, ['C16']),
+    ('vi_mtbl_varint_decode32', 'mtbl/varint.c', 'mtbl_varint_decode32', ALL, ['C16']),
+    ('vi_mtbl_varint_decode64', 'mtbl/varint.c', 'mtbl_varint_decode64', ALL, ['C16']),
+    ('wr_mtbl_writer_options_init', 'mtbl/writer.c', 'mtbl_writer_options_init', ALL, ['C01', 'C08']),
+    ('wr_mtbl_writer_options_destroy', 'mtbl/writer.c', 'mtbl_writer_options_destroy', ALL, ['C01', 'C08']),
+    ('wr_mtbl_writer_options_set_compression', 'mtbl/writer.c', 'mtbl_writer_options_set_compression', ALL, ['C01', 'C08']),
+    ('wr_mtbl_writer_options_set_compression_level', 'mtbl/writer.c', 'mtbl_writer_options_set_compression_level', ALL, ['C01', 'C08']),
+    ('wr_mtbl_writer_options_set_block_restart_interval', 'mtbl/writer.c', 'mtbl_writer_options_set_block_restart_interval', ALL, ['C01', 'C08']),
+    ('wr_mtbl_writer_options_set_threadpool', 'mtbl/writer.c', 'mtbl_writer_options_set_threadpool', ALL, ['C01', 'C08']),
+    ('wr_mtbl_writer_write_block', 'mtbl/writer.c', '_mtbl_writer_write_block', ALL, ['C09', 'C20']),
+    ('hp_heap_init', 'libmy/heap.c', 'heap_init', ALL, ['C04', 'C05']),
+    ('hp_heap_destroy', 'libmy/heap.c', 'heap_destroy', ALL, ['C04', 'C05']),
+    ('hp_heap_clip', 'libmy/heap.c', 'heap_clip', ALL, ['C04', 'C05']),
+    ('hp_heap_add', 'libmy/heap.c', 'heap_add', ALL, ['C04', 'C05']),
+    ('hp_heap_push', 'libmy/heap.c', 'heap_push', ALL, ['C04', 'C05']),
+    ('hp_heap_peek', 'libmy/heap.c', 'heap_peek', ALL, ['C04', 'C05']),
+    ('mfs_path_exists', 'libmy/my_fileset.c', 'path_exists', ALL, ['C07']),
+    ('mfs_cmp_fileset_entry', 'libmy/my_fileset.c', 'cmp_fileset_entry', ALL, ['C07']),
+    ('mfs_fetch_entry', 'libmy/my_fileset.c', 'fetch_entry', ALL, ['C07']),
+    ('mfs_my_fileset_init', 'libmy/my_fileset.c', 'my_fileset_init', ALL, ['C07']),
+    ('mfs_my_fileset_user', 'libmy/my_fileset.c', 'my_fileset_user', ALL, ['C07']),
+    ('mfs_my_fileset_get', 'libmy/my_fileset.c', 'my_fileset_get', ALL, ['C07']),
+    ('crc_my_crc32c_slicing', 'libmy/crc32c-slicing.c', 'my_crc32c_slicing', ALL, ['C17']),
+    ('crc_my_crc32c_sse42_supported', 'libmy/crc32c-sse42.c', 'my_crc32c_sse42_supported', ALL, ['C17']),
+    ('crc_my_asm_crc32_u64', 'libmy/crc32c-sse42.c', 'my_asm_crc32_u64', ALL, ['C17']),
+    ('crc_my_asm_crc32_u32', 'libmy/crc32c-sse42.c', 'my_asm_crc32_u32', ALL, ['C17']),
+    ('crc_my_asm_crc32_u16', 'libmy/crc32c-sse42.c', 'my_asm_crc32_u16', ALL, ['C17']),
+    ('crc_my_asm_crc32_u8', 'libmy/crc32c-sse42.c', 'my_asm_crc32_u8', ALL, ['C17']),
+    ('crc_my_crc32c_sse42', 'libmy/crc32c-sse42.c', 'my_crc32c_sse42', ALL, ['C17']),
+    ('crc_mtbl_crc32c', 'mtbl/crc32c_wrap.c', 'mtbl_crc32c', ALL, ['C17']),
+    ('crc_dispatch_c', 'libmy/crc32c.c', None, ALL, ['C17']),
     # the generic containers (function-like macros): whole files
     ('vector_h', 'libmy/vector.h', None, ALL, ['C04', 'C06', 'C09', 'C18']),
     ('ubuf_h', 'libmy/ubuf.h', None, ALL, ['C04', 'C08', 'C09', 'C18']),
